@@ -76,6 +76,7 @@ func (h *Handler6) spoofLoop(dstAddr packet.Addr) {
 		h.Lock()
 		verifCheck(h, lid, dstAddr)
 
+		wake := h.closeChan // read under the mutex: the RA branch replaces the channel
 		if h.huntList.Index(dstAddr.MAC) == -1 || h.closed {
 			h.Unlock()
 			Logger6.Msg("NA attack end").Struct(dstAddr).Int("repeat", nTimes).Duration("duration", time.Since(startTime)).Write()
@@ -134,7 +135,7 @@ func (h *Handler6) spoofLoop(dstAddr packet.Addr) {
 		}
 
 		select {
-		case <-h.closeChan:
+		case <-wake:
 			// icmp6 spoof goroutines wait on this channel to receive
 			// notifications of new Router Advertisements send by the lan router.
 			//
